@@ -173,11 +173,23 @@ func runC14(c *Ctx) {
 				} else {
 					recv = cc.Args[0]
 				}
-				if recv != ssa.Value(fn.Params[1]) {
-					// also fine: the *Cell obtained from po by the type assertion
-					if ex, ok := recv.(*ssa.Extract); !ok || ex.Tuple.(*ssa.TypeAssert).X != ssa.Value(fn.Params[1]) {
-						setsOnPo = false
+				// the object itself, the concrete value obtained from it by a type assertion, or an embedded
+				// part of that (promoted SetProperty)
+				for {
+					if fa, isFA := recv.(*ssa.FieldAddr); isFA {
+						recv = fa.X
+						continue
 					}
+					break
+				}
+				if ex, isEx := recv.(*ssa.Extract); isEx {
+					recv = ex.Tuple
+				}
+				if ta, isTA := recv.(*ssa.TypeAssert); isTA {
+					recv = ta.X
+				}
+				if recv != ssa.Value(fn.Params[1]) {
+					setsOnPo = false
 				}
 			}
 		})
